@@ -89,6 +89,9 @@ def mutations(m, t, doc, rnd, limit=40):
             nv = dict(v)
             nv['zz_unknown'] = rnd.choice([1, None, 'x', {'.tag': 'q'}])
             out.append(('add_key', set_at(doc, path, nv)))
+            nv2 = dict(v)
+            nv2[rnd.choice(['.tagx', '.tag_anything', '.tags', '.tag.'])] = rnd.choice([1, None, 'x'])
+            out.append(('add_dot_tag_prefixed_key', set_at(doc, path, nv2)))
             if '.tag' in v:
                 out.append(('retag_unknown', set_at(doc, path, dict(v, **{'.tag': 'zz_unknown_tag'}))))
                 out.append(('retag_other', set_at(doc, path, dict(v, **{'.tag': 'other'}))))
@@ -110,7 +113,8 @@ def mutations(m, t, doc, rnd, limit=40):
                 lo, hi = PRIM_INTS[n]
                 mn, mx = tt.args.get('min_value', lo), tt.args.get('max_value', hi)
                 for nm, nv in (('int_below', mn - 1), ('int_above', mx + 1), ('int_at_min', mn),
-                               ('int_at_max', mx), ('int_as_float', 1.5), ('int_as_string', str(mn))):
+                               ('int_at_max', mx), ('int_as_float', 1.5), ('int_as_string', str(mn)),
+                               ('int_as_bool', True)):
                     out.append((nm, set_at(doc, path, nv)))
             elif n in PRIM_FLOATS:
                 mn, mx = tt.args.get('min_value'), tt.args.get('max_value')
@@ -118,6 +122,7 @@ def mutations(m, t, doc, rnd, limit=40):
                     out.append(('float_below', set_at(doc, path, float(mn) - abs(float(mn)) * 1e-9 - 1e-9)))
                 if mx is not None:
                     out.append(('float_above', set_at(doc, path, float(mx) + abs(float(mx)) * 1e-9 + 1e-9)))
+                out.append(('float_as_bool', set_at(doc, path, False)))
                 out.append(('float_nan', set_at(doc, path, float('nan'))))
                 out.append(('float_inf', set_at(doc, path, float('inf'))))
                 if n == 'Float32':
@@ -133,6 +138,8 @@ def mutations(m, t, doc, rnd, limit=40):
                     out.append(('pattern_leading_newline', set_at(doc, path, '\n' + str(v))))
             elif n == 'Bytes':
                 out.append(('bytes_bad_base64', set_at(doc, path, '!!!notbase64')))
+                out.append(('bytes_base64_with_junk', set_at(doc, path, rnd.choice(
+                    ['YQ==junk', 'YWJj!', 'YW Jj', 'YWJj\n', '=YWJj', 'YQ==YQ=='])))) 
                 out.append(('bytes_non_ascii', set_at(doc, path, 'é日本')))
             elif n == 'Timestamp':
                 out.append(('timestamp_garbage', set_at(doc, path, 'not a date')))
